@@ -179,7 +179,7 @@ def _deco_args(sig):
         parts.append("eager=True")
     o = sig.get("options") or {}
     for k in o:
-        if k not in ("data_first_search", "case_insensitive", "collect_errors"):
+        if k not in ("data_first_search", "case_insensitive", "collect_errors", "addition"):
             raise HarnessError("bad function option")
     if o:
         parts.append("options=utype.Options(" + ", ".join(f"{k}={v!r}" for k, v in sorted(o.items())) + ")")
@@ -580,6 +580,9 @@ def cases(draw):
         sig["options"] = {"data_first_search": True}
     if draw(st.sampled_from([False, False, True])):
         sig.setdefault("options", {})["collect_errors"] = True
+    if has_kw and draw(st.sampled_from([False, False, True])):
+        # the declared **kwargs (and its annotation) decide about extra keywords, whatever the decorator's options say about `addition`
+        sig.setdefault("options", {})["addition"] = draw(st.booleans())
     if wrapper in ("gen", "asyncgen"):
         sig["yield_t"] = draw(st.sampled_from(["none", "int", "str", "pos"]))
         sig["send_t"] = draw(st.sampled_from(["none", "int", "str"]))
